@@ -154,3 +154,23 @@ def expect_compile_error(name, module, needle):
         f.write('#![allow(unused)]\n' + module + '\nfn main() {}\n')
     rc, out, err = _cargo(root, ['build'])
     return rc != 0, (needle in err), err[-1500:]
+
+
+def negative_module(mod, macro, kind):
+    """A program that MUST be rejected at compile time: kind 'nomatch' (no archetype has both components)
+    or 'ambiguous' (a OneOf matching two components of one archetype), through the given query macro."""
+    params = "_a: &T0, _b: &T2" if kind == "nomatch" else "_x: &OneOf<T0, T1>"
+    out = ["pub mod %s {" % mod, "    #![allow(unused, dead_code)]", "    use gecs::prelude::*;",
+           "    pub struct T0(pub u8); pub struct T1(pub u8); pub struct T2(pub u8);",
+           "    ecs_world! {", "        ecs_name!(World%s);" % mod.capitalize(),
+           "        ecs_archetype!(A0, T0, T1);", "        ecs_archetype!(A1, T2);", "    }",
+           "    pub fn check() {", "        let mut world = World%s::new();" % mod.capitalize(),
+           "        let e = world.create::<A0>((T0(0), T1(0)));"]
+    if macro in ("ecs_find", "ecs_find_borrow"):
+        out.append("        let _ = %s!(world, e, |%s| {});" % (macro, params))
+    elif macro == "ecs_iter_destroy":
+        out.append("        ecs_iter_destroy!(world, |%s| { EcsStepDestroy::Continue });" % params)
+    else:
+        out.append("        %s!(world, |%s| {});" % (macro, params))
+    out += ["    }", "}"]
+    return "\n".join(out)
